@@ -21,3 +21,40 @@ pub mod xtypes_deserializer {
         deserialize_top_level_type, deserialize_top_level_type_from_representation_identifier,
     };
 }
+
+/// Builds a `PublicationBuiltinTopicData` (fields are crate-private) from a writer QoS, for driving the reader
+/// history entity outside of discovery.
+pub fn publication_builtin_topic_data(
+    key: [u8; 16],
+    participant_key: [u8; 16],
+    topic_name: &str,
+    type_name: &str,
+    qos: &crate::infrastructure::qos::DataWriterQos,
+    publisher_qos: &crate::infrastructure::qos::PublisherQos,
+) -> crate::builtin_topics::PublicationBuiltinTopicData {
+    use crate::builtin_topics::{BuiltInTopicKey, PublicationBuiltinTopicData};
+    PublicationBuiltinTopicData {
+        key: BuiltInTopicKey { value: key },
+        participant_key: BuiltInTopicKey {
+            value: participant_key,
+        },
+        topic_name: alloc::string::String::from(topic_name).into(),
+        type_name: alloc::string::String::from(type_name).into(),
+        type_information: None,
+        durability: qos.durability.clone(),
+        deadline: qos.deadline.clone(),
+        latency_budget: qos.latency_budget.clone(),
+        liveliness: qos.liveliness.clone(),
+        reliability: qos.reliability.clone(),
+        lifespan: qos.lifespan.clone(),
+        user_data: qos.user_data.clone(),
+        ownership: qos.ownership.clone(),
+        ownership_strength: qos.ownership_strength.clone(),
+        destination_order: qos.destination_order.clone(),
+        presentation: publisher_qos.presentation.clone(),
+        partition: publisher_qos.partition.clone(),
+        topic_data: Default::default(),
+        group_data: publisher_qos.group_data.clone(),
+        representation: qos.representation.clone(),
+    }
+}
